@@ -51,6 +51,11 @@ CHECKS = {
    text="Proof (thin, on models): the worker protocol of VM.Step / Processor_execute / VM.Stop is modelled as an LTS for any number of processors; proved: the round invariant, progress (a Step never blocks), termination measure, at the end of a Step every worker waits for its next instruction, the live-worker count is constant until Stop and Stop lets every worker exit. Bookkeeping: histories of complete single-shot simulations leave zero workers; the pre-fix code leaves n*(P+1) (refuted variant kept). The tie is dynamic: goroutine count and goroutine profile grouped by function around batches of SinglePipelineSimulate / Fitness_default calls (sequential and concurrent). Assembler instances leak their requirements server (known finding). Heap retention is measured, not proved.",
    design_ref="DESIGN.md section 5, C17",
    note="Trusted: Coq kernel; Front/Barrier.v, Front/Leak.v hand-written models; harness/c17.go goroutine accounting."),
+ "C12": dict(
+   technique="Coq proof of compiler correctness for the register-variable subset (emitted code under the simulator model writes the Go semantics' output sequence, all programs / register sizes / machines with enough registers) plus an LTS of the compiler's three workers (never blocks, terminates, requirements independent of the interleaving); ties: the real cmd/bondgo binary compared instruction by instruction with the model under forced worker delays and a deadline",
+   text="Proof: Front/Bondgo.v models Expr_eval/Visit for declarations, assignment, literals, variables, + and *, IOWrite together with the allocator's lowest-free-register policy; compile_correct is proved by induction with an invariant relating allocator state, machine registers and the Go environment. Front/BondgoProto.v models visitor / Var_assigner / Usage_Monitor as rendezvous automata for every visitor behaviour; with the repaired shutdown order no reachable state is stuck, a measure decreases, and the final requirement is schedule independent; the old order is refuted by a concrete deadlock. Tie: random programs of the subset are compiled by the real binary (built with -tags verif) with the allocator's notifications delayed by 0/25 ms (quick) or 0/5/25/60 ms; assembly, reported register requirement and simulated outputs are compared with the model. Control flow, functions, goroutines and channels are outside the model (partial).",
+   design_ref="DESIGN.md section 5, C12",
+   note="Trusted: Coq kernel; hand-written models Front/Bondgo.v, Front/BondgoProto.v; Isa/Sim.v as the meaning of assembly (tied to the Go simulator in C09); the verif hook verifYieldBondgo."),
 }
 NOT_APPLICABLE = []
 
